@@ -25,7 +25,7 @@
      EMath k (map tree body) (tpos o);  an argument is EGroup k .. (tpos o).
 
    The well-formedness conditions were found by doing the proof; each is
-   stated below as an equation (C02pp_wf_*) with the behaviour of the code that
+   stated below as an equation (the C02pp_wf_ theorems) with the behaviour of the code that
    forces it. *)
 From Coq Require Import List NArith ZArith Bool.
 From TexModel Require Import Base Tables Chars Tokenizer Tree Reader.
